@@ -302,6 +302,8 @@ impl Runtime {
                 let mut range = range.clone();
                 if let Some((string, columns)) = self.listing.list_line(&mut range) {
                     self.state = State::Listing(range);
+                    // The host ends the line it shows.
+                    self.print_col = 0;
                     return Event::List((string, columns));
                 }
                 self.state = State::Running;
@@ -580,6 +582,8 @@ impl Runtime {
     }
 
     fn r#cls(&mut self) -> Result<Event> {
+        // The cursor goes home.
+        self.print_col = 0;
         Ok(Event::Cls)
     }
 
